@@ -54,6 +54,15 @@ M = [
  ('C03-m17', 'C03', CORE + 'validator/typecheck.rs', '                            let type_of_is = if !actual_lub.contains_entity_type(entity_type) {', '                            let type_of_is = if actual_lub.contains_entity_type(entity_type) {'),
  ('C03-m18', 'C03', CORE + 'validator/typecheck.rs', '                Type::singleton_boolean(lhs_lit == rhs_lit)', '                Type::singleton_boolean(lhs_lit != rhs_lit)'),
  ('C03-m19', 'C03', CORE + 'validator/typecheck.rs', '                let rhs_ty = self.typecheck(prior_capability, arg2, type_errors);\n                lhs_ty.then_typecheck(|lhs_ty, _| {\n                    rhs_ty.then_typecheck(|rhs_ty, _| {\n                        let type_of_eq', '                let rhs_ty = self.typecheck(prior_capability, arg2, type_errors);\n                lhs_ty.then_typecheck(|lhs_ty, _| {\n                    rhs_ty.into_fail().then_typecheck(|rhs_ty, _| {\n                        let type_of_eq'),
+ ('C10-m1', 'C10', CORE + 'entities/json/value.rs', '            Literal::Bool(b) => Self::Bool(b),', '            Literal::Bool(b) => Self::Bool(!b),'),
+ ('C10-m2', 'C10', CORE + 'entities/json/value.rs', '                        args: args\n                            .iter()\n                            .map(|arg| {', '                        args: args\n                            .iter()\n                            .rev()\n                            .map(|arg| {'),
+ ('C10-m3', 'C10', CORE + 'entities/json/value.rs', '                vals.into_iter()\n                    .map(|v| v.into_expr(ctx))', '                vals.into_iter()\n                    .skip(1)\n                    .map(|v| v.into_expr(ctx))'),
+ ('C10-m4', 'C10', CORE + 'entities/json/value.rs', '                check_for_reserved_keys(map.keys())?;\n                Ok(Self::Record(\n                    map.iter()', '                Ok(Self::Record(\n                    map.iter()'),
+ ('C10-m5', 'C10', CORE + 'entities/json/value.rs', '            Self::Null => Err(JsonDeserializationError::Null(Box::new(ctx()))),', '            Self::Null => Ok(RestrictedExpr::val(false)),'),
+ ('C10-m6', 'C10', CORE + 'entities/json/value.rs', '            Self::Long(i) => Ok(RestrictedExpr::val(i)),', '            Self::Long(i) => Ok(RestrictedExpr::val(i.saturating_abs())),'),
+ ('C10-m7', 'C10', CORE + 'entities/json/value.rs', '                check_for_reserved_keys(record.keys())?;\n', ''),
+ ('C10-m8', 'C10', CORE + 'entities/json/value.rs', '                set.iter()\n                    .cloned()\n                    .map(Self::from_value)', '                set.iter()\n                    .take(1)\n                    .cloned()\n                    .map(Self::from_value)'),
+ ('C10-m9', 'C10', CORE + 'entities/json/value.rs', '                    [ref expr] => Ok(Self::ExtnEscape {\n                        __extn: FnAndArgs::Single {\n                            ext_fn: ext_func.to_smolstr(),', '                    [ref expr] => Ok(Self::ExtnEscape {\n                        __extn: FnAndArgs::Single {\n                            ext_fn: ext_func.basename().to_smolstr(),'),
  ('C17-m1', 'C17', CORE + 'validator/entity_manifest.rs', '            if matches!(op, BinaryOp::In) {', '            if false && matches!(op, BinaryOp::In) {'),
  ('C17-m2', 'C17', CORE + 'validator/entity_manifest.rs', '            .union(entity_manifest_from_expr(then_expr)?)\n            .union(entity_manifest_from_expr(else_expr)?)),', '            .union(entity_manifest_from_expr(then_expr)?)),'),
  ('C17-m3', 'C17', CORE + 'validator/entity_manifest.rs', '        ExprKind::HasAttr { expr, attr } => Ok(entity_manifest_from_expr(expr)?\n            .get_or_has_attr(attr)\n            .empty_paths()),', '        ExprKind::HasAttr { expr, attr: _ } => Ok(entity_manifest_from_expr(expr)?\n            .empty_paths()),'),
